@@ -25,6 +25,24 @@ def dom(name, run_mod, nq, nt, model=True):
 
 
 PROPS = {
+    "C14": {
+        "properties": ["C14", "C14_envelope", "C14_wire", "C14_tokens"],
+        "domains": [
+            dom("c14env", "Model.RunEnvelopeChecked", 30, 600),
+            dom("c12", "Model.RunWire", 50, 800),
+            dom("c14fuzz", "", 250, 6000, model=False),
+        ],
+        "trusted": [
+            "Lib/GoSlice.v is the definition of Go's slice/index/make run-time checks used by the checked model (slices are modelled with cap = len, which can only add panics); tied to the real code by replaying every observed ok/err/PANIC outcome of the malformed stream on the checked model",
+            "modelled, not verified: Themis itself (abstract record); processors/callbacks of the scanners are universally quantified functions that never panic",
+            "Properties/C14_envelope.v holds the 55 envelope theorems of C14; Properties/C14.v re-exports it with the headline conjunction"
+        ],
+        "assumptions": [
+            "go_len s (len s <= 2^47, True of every Go byte slice) where the code converts len to uint64 or adds to it in int64",
+            "GetDataLengthFromAcraStruct, getSerializedContainerLength, AcraBlock.EncryptedDataEncryptionKeyLength are total only under the length check all their callers perform (\u2026_unguarded_refuted witnesses)",
+            "OnColumn output bound: premise on the callbacks is relative to the stretch of input a candidate covers (see C14_OnColumn_quadratic_example)"
+        ]
+    },
     "C18": {
         "domains": [
             {
